@@ -48,3 +48,4 @@ def rules(ctx):
     S.durability_guard_rules(ctx)
     S.flush_take_rules(ctx)
     S.round5_rules(ctx)
+    S.handover_rules(ctx)
